@@ -1,1 +1,366 @@
-fn main() { println!("hello"); }
+use std::collections::{BTreeMap, BTreeSet};
+use std::path::PathBuf;
+use std::process::{Command, Stdio};
+use std::time::{Duration, Instant};
+
+use serde_json::{json, Value};
+
+use verif::props;
+use verif::run::{self, hash64, load_findings, verif_root, Property, ShardResult, Tier, Violation, HARNESS_PREFIX};
+
+fn usage() -> ! {
+    eprintln!("usage: verif check <ID> <quick|thorough> | verif shard <ID> <tier> <seed> <i> <n> <out> [--journal f] [--part p] | verif replay <ID> <file> | verif selftest | verif list");
+    std::process::exit(2)
+}
+
+fn tier_of(s: &str) -> Tier {
+    match s {
+        "quick" => Tier::Quick,
+        "thorough" => Tier::Thorough,
+        _ => usage(),
+    }
+}
+
+fn seed_from_env() -> u64 {
+    std::env::var("VERIF_SEED").ok().and_then(|s| s.trim().parse::<i64>().ok()).map(|v| v as u64).unwrap_or(0)
+}
+
+fn main() {
+    let args: Vec<String> = std::env::args().collect();
+    if args.len() < 2 {
+        usage();
+    }
+    // the code under test panics on purpose-built inputs; keep stderr readable
+    if std::env::var("VERIF_PANIC_TRACE").is_err() {
+        std::panic::set_hook(Box::new(|_| {}));
+    }
+    match args[1].as_str() {
+        "list" => {
+            for p in props::all() {
+                println!("{} {}", p.id, p.parts.iter().map(|x| x.name).collect::<Vec<_>>().join(","));
+            }
+        }
+        "selftest" => match verif::refmodel::self_test() {
+            Ok(()) => {
+                let n = verif::gen::seeds().len();
+                println!("reference model self-test ok; {n} seed positions sane");
+            }
+            Err(e) => {
+                eprintln!("{HARNESS_PREFIX} reference model self-test failed: {e}");
+                std::process::exit(2);
+            }
+        },
+        "shard" => {
+            if args.len() < 8 {
+                usage();
+            }
+            let prop = props::by_id(&args[2]).unwrap_or_else(|| usage());
+            let tier = tier_of(&args[3]);
+            let seed: u64 = args[4].parse().unwrap_or(0);
+            let i: u32 = args[5].parse().unwrap_or(0);
+            let n: u32 = args[6].parse().unwrap_or(1);
+            let out = PathBuf::from(&args[7]);
+            let mut journal = None;
+            let mut part = None;
+            let mut k = 8;
+            while k + 1 < args.len() {
+                match args[k].as_str() {
+                    "--journal" => journal = Some(PathBuf::from(&args[k + 1])),
+                    "--part" => part = Some(args[k + 1].clone()),
+                    _ => usage(),
+                }
+                k += 2;
+            }
+            let res = run::run_shard(&prop, tier, seed, i, n, journal, part.as_deref());
+            let v = serde_json::to_value(&res).expect("shard result");
+            run::write_json(&out, &v).expect("write shard result");
+        }
+        "replay" => {
+            if args.len() < 4 {
+                usage();
+            }
+            let prop = props::by_id(&args[2]).unwrap_or_else(|| usage());
+            std::process::exit(replay_file(&prop, &PathBuf::from(&args[3]), true));
+        }
+        "check" => {
+            if args.len() < 4 {
+                usage();
+            }
+            let prop = props::by_id(&args[2]).unwrap_or_else(|| usage());
+            std::process::exit(check(&prop, tier_of(&args[3])));
+        }
+        _ => usage(),
+    }
+}
+
+/// returns 0 = passes, 1 = violation reproduced, 2 = harness problem
+fn replay_file(prop: &Property, path: &PathBuf, verbose: bool) -> i32 {
+    let text = match std::fs::read_to_string(path) {
+        Ok(t) => t,
+        Err(e) => {
+            eprintln!("cannot read {}: {e}", path.display());
+            return 2;
+        }
+    };
+    let v: Value = match serde_json::from_str(&text) {
+        Ok(v) => v,
+        Err(e) => {
+            eprintln!("cannot parse {}: {e}", path.display());
+            return 2;
+        }
+    };
+    let part_name = v.get("part").and_then(Value::as_str).unwrap_or("");
+    let Some(part) = prop.parts.iter().find(|p| p.name == part_name) else {
+        eprintln!("{}: unknown part {:?} for {}", path.display(), part_name, prop.id);
+        return 2;
+    };
+    let case = v.get("case").cloned().unwrap_or(Value::Null);
+    match (part.replay)(&case) {
+        Ok(()) => {
+            if verbose {
+                println!("replay {}: property {} holds on this case", path.display(), prop.id);
+            }
+            0
+        }
+        Err(m) if m.contains(HARNESS_PREFIX) => {
+            eprintln!("replay {}: {m}", path.display());
+            2
+        }
+        Err(m) => {
+            println!("replay {}: {m}", path.display());
+            println!("VIOLATION property={} replay={}", prop.id, path.display());
+            1
+        }
+    }
+}
+
+fn write_replay(prop: &Property, seed: u64, v: &Violation) -> PathBuf {
+    let dir = verif_root().join("out");
+    let _ = std::fs::create_dir_all(&dir);
+    let h = hash64((&v.part, v.case.to_string()));
+    let path = dir.join(format!("{}-{}-{:08x}.json", prop.id, seed, h as u32));
+    let _ = run::write_json(&path, &json!({"property": prop.id, "part": v.part, "seed": seed, "message": v.message, "case": v.case}));
+    path
+}
+
+fn check(prop: &Property, tier: Tier) -> i32 {
+    let t0 = Instant::now();
+    let seed = seed_from_env();
+    let root = verif_root();
+    if let Err(e) = verif::refmodel::self_test() {
+        eprintln!("{HARNESS_PREFIX} reference model self-test failed: {e}");
+        return 2;
+    }
+    let mut violations: Vec<(PathBuf, String)> = Vec::new();
+    let mut harness_errors: Vec<String> = Vec::new();
+
+    // 1. regression tier: committed reproductions of repaired defects must pass
+    let regress_dir = root.join("regress").join(prop.id);
+    let mut regress_count = 0u64;
+    if let Ok(rd) = std::fs::read_dir(&regress_dir) {
+        let mut files: Vec<PathBuf> = rd.filter_map(|e| e.ok().map(|e| e.path())).filter(|p| p.extension().map_or(false, |x| x == "json")).collect();
+        files.sort();
+        for f in files {
+            regress_count += 1;
+            match replay_file(prop, &f, false) {
+                0 => {}
+                1 => violations.push((f.clone(), "regression reproduction fails again".to_string())),
+                _ => harness_errors.push(format!("regress file {} unusable", f.display())),
+            }
+        }
+    }
+
+    // 2. shards
+    let nshards: u32 = std::env::var("VERIF_SHARDS").ok().and_then(|s| s.parse().ok()).unwrap_or_else(|| std::thread::available_parallelism().map(|n| n.get() as u32).unwrap_or(8)).max(1);
+    let exe = std::env::current_exe().expect("current exe");
+    let tmp = root.join("out").join(format!(".shards-{}-{}", prop.id, std::process::id()));
+    let _ = std::fs::create_dir_all(&tmp);
+    let budget = Duration::from_secs(std::env::var("VERIF_WATCHDOG_S").ok().and_then(|s| s.parse().ok()).unwrap_or(match tier {
+        Tier::Quick => 1500,
+        Tier::Thorough => 6 * 3600,
+    }));
+    let mut children = Vec::new();
+    for i in 0..nshards {
+        let out = tmp.join(format!("shard-{i}.json"));
+        let child = Command::new(&exe)
+            .args(["shard", prop.id, tier.name(), &seed.to_string(), &i.to_string(), &nshards.to_string()])
+            .arg(&out)
+            .stdin(Stdio::null())
+            .stdout(Stdio::null())
+            .stderr(Stdio::inherit())
+            .spawn()
+            .expect("spawn shard");
+        children.push((i, child, out));
+    }
+    let mut results: Vec<ShardResult> = Vec::new();
+    let mut inconclusive = false;
+    for (i, mut child, out) in children {
+        let status = loop {
+            match child.try_wait() {
+                Ok(Some(s)) => break Some(s),
+                Ok(None) => {
+                    if t0.elapsed() > budget {
+                        let _ = child.kill();
+                        let _ = child.wait();
+                        break None;
+                    }
+                    std::thread::sleep(Duration::from_millis(20));
+                }
+                Err(_) => break None,
+            }
+        };
+        match status {
+            None => {
+                eprintln!("shard {i}: watchdog expired after {:?} (inconclusive)", budget);
+                inconclusive = true;
+            }
+            Some(s) if s.success() => match std::fs::read_to_string(&out).ok().and_then(|t| serde_json::from_str::<ShardResult>(&t).ok()) {
+                Some(r) => results.push(r),
+                None => harness_errors.push(format!("shard {i} wrote no result")),
+            },
+            Some(s) if s.code().is_some() => {
+                // an ordinary non-zero exit is a panic outside any case (harness code), not a finding
+                harness_errors.push(format!("shard {i} exited with {s} (harness panic; run with VERIF_PANIC_TRACE=1)"));
+            }
+            Some(s) => {
+                // abnormal death (abort from a UB check, stack overflow, ...): re-run journaled to find the case
+                eprintln!("shard {i} died ({s}); re-running with a journal to identify the case");
+                let journal = tmp.join(format!("journal-{i}.json"));
+                let out2 = tmp.join(format!("shard-{i}-rerun.json"));
+                let st2 = Command::new(&exe)
+                    .args(["shard", prop.id, tier.name(), &seed.to_string(), &i.to_string(), &nshards.to_string()])
+                    .arg(&out2)
+                    .arg("--journal")
+                    .arg(&journal)
+                    .stdin(Stdio::null())
+                    .stdout(Stdio::null())
+                    .stderr(Stdio::null())
+                    .status();
+                let died_again = st2.map(|s| !s.success()).unwrap_or(true);
+                if died_again {
+                    if let Some(j) = std::fs::read_to_string(&journal).ok().and_then(|t| serde_json::from_str::<Value>(&t).ok()) {
+                        let v = Violation {
+                            part: j.get("part").and_then(Value::as_str).unwrap_or("").to_string(),
+                            message: format!("process died ({s}) while executing this case (abort / UB check / stack overflow)"),
+                            case: j.get("case").cloned().unwrap_or(Value::Null),
+                            harness_error: false,
+                        };
+                        let p = write_replay(prop, seed, &v);
+                        violations.push((p, v.message.clone()));
+                    } else {
+                        harness_errors.push(format!("shard {i} died ({s}) and left no journal"));
+                    }
+                } else if let Some(r) = std::fs::read_to_string(&out2).ok().and_then(|t| serde_json::from_str::<ShardResult>(&t).ok()) {
+                    eprintln!("shard {i}: death not reproduced on re-run; using re-run result");
+                    results.push(r);
+                } else {
+                    harness_errors.push(format!("shard {i} died ({s}) and re-run gave no result"));
+                }
+            }
+        }
+    }
+    let _ = std::fs::remove_dir_all(&tmp);
+
+    // 3. merge
+    let mut evaluations = regress_count;
+    let mut nontrivial: BTreeSet<u64> = BTreeSet::new();
+    let mut classes: BTreeMap<String, u64> = BTreeMap::new();
+    let mut samples: Vec<Value> = Vec::new();
+    let mut per_part: BTreeMap<String, (u64, BTreeSet<u64>, bool)> = BTreeMap::new();
+    let mut known_lines: BTreeSet<String> = BTreeSet::new();
+    let mut notes: BTreeSet<String> = BTreeSet::new();
+    for r in &results {
+        for p in &r.parts {
+            evaluations += p.evaluations;
+            let e = per_part.entry(p.part.clone()).or_insert((0, BTreeSet::new(), true));
+            e.0 += p.evaluations;
+            e.2 &= p.exhaustive;
+            for k in &p.nontrivial {
+                e.1.insert(*k);
+                nontrivial.insert(hash64((&p.part, *k)));
+            }
+            for (c, n) in &p.classes {
+                *classes.entry(format!("{}:{}", p.part, c)).or_insert(0) += n;
+            }
+            if r.shard == 0 || samples.len() < 3 {
+                for s in p.samples.iter().take(3) {
+                    if samples.len() < 24 {
+                        samples.push(json!({"part": p.part, "case": s}));
+                    }
+                }
+            }
+            for k in &p.known_findings {
+                known_lines.insert(k.clone());
+            }
+            for n in &p.notes {
+                notes.insert(n.clone());
+            }
+            if let Some(v) = &p.violation {
+                if v.harness_error {
+                    harness_errors.push(format!("{}: {}", v.part, v.message));
+                } else {
+                    let path = write_replay(prop, seed, v);
+                    violations.push((path, v.message.clone()));
+                }
+            }
+        }
+    }
+    let findings = load_findings();
+    for k in &known_lines {
+        if findings.iter().any(|f| f.status == "known" && f.property == prop.id && k.contains(&f.signature)) {
+            println!("KNOWN-FINDING: property={} {}", prop.id, k);
+        } else {
+            // a finding signature that is not listed is an ordinary violation
+            let v = Violation { part: "known-finding-probe".into(), message: format!("unlisted finding: {k}"), case: json!({"signature": k}), harness_error: false };
+            let path = write_replay(prop, seed, &v);
+            violations.push((path, v.message));
+        }
+    }
+
+    let exhaustive_all = !per_part.is_empty() && per_part.values().all(|p| p.2);
+    let parts_json: BTreeMap<String, Value> = per_part.iter().map(|(k, v)| (k.clone(), json!({"evaluations": v.0, "distinct_nontrivial": v.1.len(), "exhaustive": v.2}))).collect();
+    let wall = t0.elapsed().as_secs_f64();
+    let evidence = json!({
+        "property_id": prop.id,
+        "tier": tier.name(),
+        "seed": seed as i64,
+        "level": prop.level,
+        "coverage": {
+            "evaluations": evaluations,
+            "distinct_nontrivial": nontrivial.len(),
+            "rule": prop.rule,
+            "samples": samples,
+            "exhaustive": exhaustive_all,
+            "parts": parts_json,
+            "classes": classes,
+            "regression_replays": regress_count,
+            "shards": nshards,
+            "known_findings_reported": known_lines.iter().collect::<Vec<_>>(),
+            "notes": notes.iter().collect::<Vec<_>>(),
+        },
+        "assumptions": prop.assumptions,
+        "wall_s": wall,
+        "violations": violations.len(),
+    });
+    if let Err(e) = run::write_json(&root.join("evidence").join(format!("{}.json", prop.id)), &evidence) {
+        eprintln!("cannot write evidence: {e}");
+        return 2;
+    }
+
+    for (path, msg) in &violations {
+        let first = msg.lines().next().unwrap_or("");
+        println!("{}: {}", prop.id, first);
+        println!("VIOLATION property={} replay={}", prop.id, path.display());
+    }
+    if !violations.is_empty() {
+        return 1;
+    }
+    if !harness_errors.is_empty() || inconclusive {
+        for e in &harness_errors {
+            eprintln!("{HARNESS_PREFIX} {e}");
+        }
+        return 2;
+    }
+    println!("{} {}: held on {} evaluations ({} distinct non-trivial), {:.1}s", prop.id, tier.name(), evaluations, nontrivial.len(), wall);
+    0
+}
